@@ -144,7 +144,7 @@ func cmdDump(args []string) int {
 		if *solve {
 			dir, _ := os.MkdirTemp("", "vcheck")
 			stats := &SolveStats{ByBackend: map[string]int{}}
-			Discharge(obls, dir, 3000, 10000, 16, stats)
+			Discharge(obls, dir, 4000, 40000, 10, stats)
 			os.RemoveAll(dir)
 		}
 		for _, o := range obls {
